@@ -101,8 +101,9 @@ def round_trip(payload):
     alphabet = ['a', 'B', ' ', '_', '4', 'Z']
     tried = distinct = 0
     seen = set()
-    for _ in range(int(payload.get('n', 400))):
-        name = ''.join(rnd.choice(alphabet) for _ in range(rnd.randint(0, 5)))
+    fixed_names = ['Straße', 'Ünit 7', 'East_Lab', 'a b', 'COM7x']
+    for it in range(int(payload.get('n', 400))):
+        name = fixed_names[it] if it < len(fixed_names) else ''.join(rnd.choice(alphabet) for _ in range(rnd.randint(0, 5)))
         templates = [
             ('COM3', 'USB Serial Device (COM3)', f'USB VID:PID=04D8:FD92 SER={name} LOCATION=1-4'),
             ('/dev/cu.usbmodem1', f'EiBotBoard,{name}', f'USB VID:PID=04D8:FD92 SER={name} LOCATION=20-1'),
@@ -120,7 +121,8 @@ def round_trip(payload):
                     names = with_ports(ports, lister)
                     if not names or len(names) != 1:
                         return {'found': True, 'input': {'ports': ports, 'layer': layer}, 'observed': f'names {names!r}', 'expected': 'one name', 'tried': tried}
-                    for variant in (names[0], names[0].upper(), names[0].lower()):
+                    # (upper-casing is only tried for ASCII names: 'ß'.upper() == 'SS' is not a case variant of the same text)
+                    for variant in ((names[0], names[0].upper(), names[0].lower()) if names[0].isascii() else (names[0], names[0].lower())):
                         got = with_ports(ports, lambda: finder(variant))
                         if got != t[0]:
                             return {'found': True, 'input': {'ports': ports, 'layer': layer, 'reported_name': names[0], 'lookup': variant},
